@@ -235,7 +235,7 @@ class HistoricalStorageAdapter(Base):
     """
 
     _copy_methods = Base._copy_methods + (
-        'loadSerial', 'tpc_begin', 'tpc_finish', 'tpc_abort', 'tpc_vote',
+        'loadSerial', 'tpc_finish', 'tpc_abort', 'tpc_vote',
         'checkCurrentSerialInTransaction',
     )
 
@@ -266,6 +266,13 @@ class HistoricalStorageAdapter(Base):
         return []
 
     new_oid = pack = store = read_only_writer
+
+    def tpc_begin(self, *a, **kw):
+        # A historical connection joins a transaction only to write, which
+        # cannot succeed.  Beginning on the real storage would take its
+        # commit lock - a second time, and for ever, when a live connection
+        # of the same database takes part in the transaction.
+        raise POSException.ReadOnlyHistoryError()
 
     def load(self, oid, version=''):
         r = self._storage.loadBefore(oid, self._before)
